@@ -23,6 +23,7 @@ EXPLANATION = (
     "scheduler's clock and Model holds no second copy. R-FWD: window parameters reach System's fields.")
 EXPLANATION += (" Premises re-checked on every run: C01's pairing/discipline rules (each registered system queued exactly once) and all of C05 (every queued system visited once per step).")
 EXPLANATION += (" The clock is not advanced on a path that a system's exception aborts. Premise: C17's `execute-collects-unconditionally`.")
+EXPLANATION += (" Premise: C06's own-model rules on execute_systems; the collectors' constructors are held to R-API (order, names, defaults).")
 ASSUMPTIONS = [
     "G6: user systems do not write scheduler fields directly; frequency >= 1 (quantifier)",
     "Python's % with positive modulus; divisibility is invariant under negation of the dividend",
@@ -444,6 +445,10 @@ def run(cx: Cx):
     include_premises(cx, ['C01'], 'a system runs once per due timestep only if it is queued exactly once',
                      only=lambda o: o.rule in ('R-PAIR', 'R-DISC', 'R-NONE', 'R-ATOMIC'))
     include_premises(cx, ['C05'], 'a system runs once per due timestep only if the scheduler visits every queued system once')
+    include_premises(cx, ['C06'], 'the side condition of the window is "this scheduler\'s own model is running" (a status read through the '
+                     'scheduled system belongs to another model)', only=lambda o: (o.function or '').endswith('execute_systems') and o.rule in ('R-GUARD', 'R-ORDER'))
+    for c_ in ('Collector', 'AgentCollector', 'FileCollector'):
+        cx.fn(COLL + c_ + '.__init__')          # R-API: positional order, names and defaults of the schedule parameters
     include_premises(cx, ['C17'], 'the systems the package ships (the collectors) do their work whenever the scheduler runs them: no second '
                      'look at a clock of their own', only=lambda o: 'execute-collects-unconditionally' in o.key)
 
